@@ -78,7 +78,8 @@ def a_dtc(sub, status=None, severity=None, sev_obj=False, dtc_class=None, dtc=No
 
 
 DIDS = [(0xF190, 3), (0x0102, 1), (0x1234, 2), (0x0304, 0), (0xFFFF, -1)]
-IOS = [(0x0132, 2, 1, 1, [1, 2, 0x80]), (0x0456, 1, 1, -1, [0x0100, 0x01]), (0x0155, 2, 0, -1, []), (-1, 1, 0, 2, [])]
+IOS = [(0x0132, 2, 1, 1, [1, 2, 0x80]), (0x0456, 1, 1, -1, [0x0100, 0x01]), (0x0155, 2, 0, -1, []), (-1, 1, 0, 2, []),
+       (0x0177, 2, 1, 2, [0x10, 0x20, 0x30, 0x0100, 0x00F8]), (0x0178, 2, 1, -1, [0x10, 0x30, 0x1010])]   # overlapping mask bit patterns (group masks)
 A16 = bytes(range(16))
 
 
